@@ -67,6 +67,10 @@ CHECKS = {
    "spec/ZoneTree.tla transcribes the synthesis of the zone tree from stream labels (pre-pass, per-path counters, clash avoidance of generated unit-operation names), label rewriting, stream-to-zone matching and the bottom-up aggregation that replaces the collections of every zone with children; TLC checks conservation (exactly one leaf, once in each ancestor, nowhere else) for every sequence of <=3 streams over a label universe built from suffix/prefix pairs, the root name and generated names, and for resolution against a user tree; every configuration is replayed through prepare_problem and the projected tree judged by the same predicates (streams identified by unique duties), plus independence of per-zone utility copies.",
    "Label universe and user tree fixed in the spec; two input classes with a user tree are known findings carved out by TLA+ predicates; whitespace-padded labels are exercised when VERIF_SEED is odd.",
    "TLA+ spec + TLC exhaustive model check; TLC-exported cases replayed into the implementation"),
+ "C17": ("model_checking", "7/C17",
+   "spec/CurveSimplify.tla: (clean) end trimming + collinear-point removal transcribed and model-checked against 'same function of temperature over the non-flat extent' on every polyline of <=5 points with arbitrary enthalpy shape (plateaus, steps, spikes, flat ends); (rdp) the Ramer-Douglas-Peucker loop with its explicit stack, one action per popped interval, exact squared distances, against end-point / order / deviation predicates on every monotone lattice polyline x tolerances; every case replayed on the real functions. (trace) get_piecewise_data_points on 50-500 point hot and cold profiles; TLC judges each original point against its spanning segment in integers (integer square root), and an exact float judgement of the same clauses backs up the integer resolution.",
+   "Two known findings on the one-sided clause (unrefined results with <=10 breakpoints; optimiser slack up to eps/5), each carved out by a predicate over the event; larger excursions are violations.",
+   "TLA+ spec + TLC exhaustive model check with replay; real executions judged by the TLA+ trace specification with TLC"),
 }
 NOT_YET = {}
 
